@@ -40,6 +40,9 @@ class Guarded:
         self.guards = {}
         self.stmt_guards = {}
         self.order = []
+        self.encl = {}              # id(expr) -> ids of the always-exiting branch statements that enclose it
+        self._exiting = ()
+        self.switch_labels = {}     # id(switch condition) -> every explicit case label (v, v2) of that switch
         for i in f.get('inits', []):
             self._expr(i.get('e'), ())
         self._stmt(f.get('body'), ())
@@ -52,6 +55,7 @@ class Guarded:
             return
         self.guards[id(e)] = g
         self.order.append(e)
+        self.encl[id(e)] = self._exiting
         k = e.get('k')
         if k == 'bin' and e.get('op') in ('&&', '||'):
             self._expr(e['x'], g)
@@ -99,9 +103,16 @@ class Guarded:
             if s.get('cv'):
                 self._expr(s['cv'].get('init'), cur)
             self._expr(s['c'], cur)
+            saved = self._exiting
+            if always_exits(s['then']):
+                self._exiting = saved + (id(s['then']),)
             self._stmt(s['then'], cur + ((s['c'], True, 'if'),))
+            self._exiting = saved
             if s.get('else'):
+                if always_exits(s['else']):
+                    self._exiting = saved + (id(s['else']),)
                 self._stmt(s['else'], cur + ((s['c'], False, 'if'),))
+                self._exiting = saved
             if always_exits(s['then']) and not s.get('else'):
                 return g + ((s['c'], False, 'after'),)
             if s.get('else') and always_exits(s['else']) and not always_exits(s['then']):
@@ -151,6 +162,18 @@ class Guarded:
             return
         labels = None
         fall = False
+        every = self.switch_labels.setdefault(id(sw['c']), [])
+        def own_cases(st):
+            # case labels of this switch only (labels may sit inside nested blocks, not inside nested switches)
+            if not isinstance(st, dict) or st.get('k') == 'switch':
+                return
+            if st.get('k') == 'case':
+                every.append((st.get('v'), st.get('v2')))
+            for key in ('sub', 'then', 'else', 'body'):
+                own_cases(st.get(key))
+            for c in st.get('s', []) or []:
+                own_cases(c)
+        own_cases(body)
         for x in body['s']:
             # collect the labels opening this statement
             cur = x
